@@ -273,7 +273,7 @@ def replay(chk, scenarios, label, trace_sample=100, extra_env=None, fault_of=Non
     # trace validation on a seeded sample
     sids = sorted(items)
     chk.rng.shuffle(sids)
-    run_tr, det_tr = {}, {}
+    run_tr, det_tr, sys_tr = {}, {}, {}
     for sid in sids[:trace_sample]:
         scn, case, expected, res, events = items[sid][:5]
         outcome = "error" if res["outcome"] == "error" else "ok"
@@ -283,7 +283,9 @@ def replay(chk, scenarios, label, trace_sample=100, extra_env=None, fault_of=Non
         d = runtrace.detect_trace(events)
         if d:
             det_tr[sid] = d
-    for module, trs in (("TraceRun", run_tr), ("TraceDetect", det_tr)):
+        if len(sys_tr) < max(20, trace_sample // 3):
+            sys_tr[sid] = runtrace.system_trace(events, res, case["args"], False)
+    for module, trs in (("TraceRun", run_tr), ("TraceDetect", det_tr), ("TraceSystem", sys_tr)):
         vres = runtrace.validate_many(module, trs)
         for sid, (acc, diag, states, rc_) in vres.items():
             chk.traces += 1
